@@ -717,3 +717,63 @@ Section Histories.
     - apply switches_wf; [apply switches_of_all | apply prims_wf; exact Hwf].
   Qed.
 End Histories.
+
+(* ---- letter case of names ---- *)
+Section LetterCase.
+  Variables M U R : Type.
+  Variable dh : bytes -> M.
+  Notation pol := (policy M U R).
+  Notation oapply := (@apply M U R dh).
+
+  (* equal after strings.ToLower *)
+  Definition names_eq (l1 l2 : list bytes) : Prop := map to_lower l1 = map to_lower l2.
+  Definition scope_case_eq (s1 s2 : scope M) : Prop :=
+    match s1, s2 with
+    | @OnElements _ e1, @OnElements _ e2 => names_eq e1 e2
+    | _, _ => s1 = s2
+    end.
+
+  Inductive op_case_eq : op M U R -> op M U R -> Prop :=
+  | ce_attrs n1 n2 re na s1 s2 : names_eq n1 n2 -> scope_case_eq s1 s2 ->
+      op_case_eq (@OAllowAttrs M U R n1 re na s1) (@OAllowAttrs M U R n2 re na s2)
+  | ce_styles n1 n2 h e re s1 s2 : names_eq n1 n2 -> scope_case_eq s1 s2 ->
+      op_case_eq (@OAllowStyles M U R n1 h e re s1) (@OAllowStyles M U R n2 h e re s2)
+  | ce_elements n1 n2 : names_eq n1 n2 -> op_case_eq (@OAllowElements M U R n1) (@OAllowElements M U R n2)
+  | ce_schemes n1 n2 : names_eq n1 n2 -> op_case_eq (@OAllowURLSchemes M U R n1) (@OAllowURLSchemes M U R n2)
+  | ce_custom s1 s2 f : to_lower s1 = to_lower s2 ->
+      op_case_eq (@OAllowURLSchemeWithCustomPolicy M U R s1 f) (@OAllowURLSchemeWithCustomPolicy M U R s2 f)
+  | ce_skip n1 n2 : names_eq n1 n2 -> op_case_eq (@OSkipElementsContent M U R n1) (@OSkipElementsContent M U R n2)
+  | ce_keep n1 n2 : names_eq n1 n2 -> op_case_eq (@OAllowElementsContent M U R n1) (@OAllowElementsContent M U R n2).
+
+  Lemma fold_lower {A} (F : A -> bytes -> A) l1 l2 a : names_eq l1 l2 ->
+    fold_left (fun a x => F a (to_lower x)) l1 a = fold_left (fun a x => F a (to_lower x)) l2 a.
+  Proof.
+    intros H. rewrite <- (fold_left_map F to_lower l1 a), <- (fold_left_map F to_lower l2 a). unfold names_eq in H. rewrite H. reflexivity.
+  Qed.
+
+  (* the builder looks at names only through strings.ToLower: calls whose names agree after
+     lower-casing have the same effect *)
+  Theorem apply_case_eq p o1 o2 : op_case_eq o1 o2 -> oapply p o1 = oapply p o2.
+  Proof.
+    intros H. destruct H as [n1 n2 re na s1 s2 Hn Hs|n1 n2 h e re s1 s2 Hn Hs|n1 n2 Hn|n1 n2 Hn|s1 s2 f Hs|n1 n2 Hn|n1 n2 Hn]; cbn [apply].
+    - unfold names_eq in Hn. rewrite Hn. destruct s1 as [e1|i1 r1|], s2 as [e2|i2 r2|]; cbn [scope_case_eq] in Hs; try discriminate; try (inversion Hs; subst; reflexivity).
+      unfold bind_attrs.
+      apply (fold_lower (fun p el =>
+               let p1 := fold_left (fun p a => set_elsAndAttrs p (upsert el (fun o => app_rule a re (match o with Some m => m | None => [] end)) (elsAndAttrs p))) (map to_lower n2) p in
+               if na then set_elsAndAttrs (set_noattrs p1 (add_set el (elsNoAttrs p1)) (elsMatchingNoAttrs p1)) (ensure el (elsAndAttrs p1)) else p1)).
+      exact Hs.
+    - unfold names_eq in Hn. rewrite Hn. destruct s1 as [e1|i1 r1|], s2 as [e2|i2 r2|]; cbn [scope_case_eq] in Hs; try discriminate; try (inversion Hs; subst; reflexivity).
+      unfold bind_styles.
+      match goal with |- fold_left ?f e1 p = fold_left _ e2 p =>
+        apply (fold_lower (fun p el => fold_left (fun p a => set_styles p (upsert el (fun o => app_rule a
+                 (match h with Some h0 => SPHandler h0 | None => match e with _ :: _ => SPEnum e | [] => match re with Some r => SPRegexp r | None => SPHandler (dh a) end end end)
+                 (match o with Some m => m | None => [] end)) (elsAndStyles p)) (elsMatchingAndStyles p) (globalStyles p)) (map to_lower n2) p)) end.
+      exact Hs.
+    - apply (fold_lower (fun p el => set_elsAndAttrs p (ensure el (elsAndAttrs p)))). exact Hn.
+    - unfold upd. f_equal. f_equal.
+      apply (fold_lower (fun m s => upsert s (fun _ => []) m)). exact Hn.
+    - rewrite Hs. reflexivity.
+    - unfold upd. f_equal. f_equal. apply (fold_lower (fun s n => add_set n s)). exact Hn.
+    - unfold upd. f_equal. f_equal. apply (fold_lower (fun s n => filter (fun x => negb (beqb x n)) s)). exact Hn.
+  Qed.
+End LetterCase.
